@@ -44,7 +44,7 @@ def matches(observed, expected):
 
 def diff_paths(a, b, prefix=""):
     """paths at which two observations differ"""
-    if a == b:
+    if a == b or (isinstance(a, str) and a == ANY):
         return []
     if isinstance(a, dict) and isinstance(b, dict) and a.keys() == b.keys():
         out = []
